@@ -57,6 +57,14 @@ class Harness:
         self.note = note
 
 
+class Direct:
+    """an obligation decided by a direct solver query: fn() -> dict(verdict=..., fail=..., ...)"""
+
+    def __init__(self, fn, note=""):
+        self.fn = fn
+        self.note = note
+
+
 _GEN = [0]
 
 
@@ -173,6 +181,16 @@ def run_harness(mod, spec):
     out = {"id": spec["id"], "twin": twin, "params": spec.get("params")}
     try:
         h = mod.build(spec["params"])
+        if hasattr(h, "fn") and not hasattr(h, "args"):
+            res = h.fn()
+            out.update(res)
+            out.setdefault("paths", 1 if res.get("verdict") in ("confirmed", "refuted") else 0)
+            out.setdefault("reached", out["paths"])
+            out.update(z3_queries=STATS["z3_queries"] + res.get("queries", 0) // 2, z3_seconds=round(STATS["z3_seconds"], 3),
+                       z3_unknown=STATS["z3_unknown"], wall=round(time.time() - t0, 2), sample_paths=[res.get("fail") or res.get("note") or "unsat"],
+                       unsupported=[])
+            out.setdefault("fail", None)
+            return out
         fn, src = _make_fn(h, twin)
         opts = AnalysisOptionSet(
             per_condition_timeout=float(spec.get("timeout", 60)),
